@@ -8,7 +8,9 @@ RULE = ('one case = one BASIC statement of a random history executed in a real S
         'statements quick / 3000 thorough, chained in sessions whose memory is shrunk by CLEAR ,n from the default '
         'down to a few bytes of free space); non-trivial = the statement touches string memory (assignment, '
         'concatenation with temporaries, MID$/LSET/RSET, SWAP, ERASE/DIM, FRE, CLEAR, DEF FN / string function '
-        'calls, READ); low-memory episodes fill memory by FRE(0) feedback so that a statement which dimensions an '
+        'calls, READ, CHAIN with COMMON lists and ALL to a program on a temporary drive, after several variables were '
+        'given one descriptor from the same program literal / DATA item, followed by in-place MID$/LSET/RSET and '
+        'collections); low-memory episodes fill memory by FRE(0) feedback so that a statement which dimensions an '
         'array implicitly (SWAP / LET / LSET / RSET / MID$ / READ with an element of a not yet existing array) has to '
         'collect garbage between looking up its operand and storing the value; after every statement all observed '
         'variables are read back and compared')
@@ -157,6 +159,10 @@ def op_text(op):
         return b'PRINT INSTR(%s,%s)' % (expr_text(op[1]), expr_text(op[2]))
     if k == 'rerun':
         return b'RUN'
+    if k == 'chain':
+        return b'CHAIN "P",,ALL' if op[1] == 'all' else b'CHAIN "P"'
+    if k == 'gosubs':
+        return b'GOTO %d' % op[1]
     if k == 'read':
         return b'READ ' + dst_text(op[1])
     if k == 'restore':
@@ -476,7 +482,14 @@ class Runner(object):
 
     def __init__(self, ctx, program=None):
         self.ctx = ctx
-        self.s = basic.new_session()
+        self.workdir = None
+        if program:
+            # a temporary drive holding a copy of the program, the target of CHAIN
+            import tempfile
+            self.workdir = tempfile.mkdtemp(prefix='pcbv_c10_')
+            self.s = basic.new_session(devices={'C': self.workdir}, current_device='C')
+        else:
+            self.s = basic.new_session()
         self.mem = self.s._impl.memory
         self.ref = Ref()
         self.total = self.mem.total_memory
@@ -492,9 +505,13 @@ class Runner(object):
         if program:
             for line in program:
                 self.s.execute(line)
+            self.s.execute(b'SAVE "P",A')
 
     def close(self):
         self.s.close()
+        if self.workdir:
+            import shutil
+            shutil.rmtree(self.workdir, ignore_errors=True)
 
     def _fail(self, key, what):
         # the replayable case (whole history so far) is only built when something fails
@@ -657,6 +674,21 @@ class Runner(object):
                 name, lit = self.code_lits[op[1]]
                 ref.write(('s', name), lit)
                 demand.append(scalar_size(name))
+            elif k == 'gosubs':
+                # a program line that assigns ONE literal (one descriptor) to several variables
+                for d, lit in SHARE_LINES[op[1]]:
+                    ref.touch(d, created)
+                    if d[0] == 's':
+                        demand.append(scalar_size(d[1]))
+                    ref.write(d, lit)
+            elif k == 'chain':
+                # CHAIN to a copy of the same program: COMMON variables (or all) keep their values, everything else
+                # is cleared, the program runs from its first line (DEF FNs again, DATA pointer reset)
+                if op[1] != 'all':
+                    ref.sc = {n: v for n, v in ref.sc.items() if n in COMMON_SCALARS}
+                    ref.ar = {n: v for n, v in ref.ar.items() if n in COMMON_ARRAYS}
+                ref.functions = True
+                self.data_idx = 0
             elif k == 'instr':
                 a = known(ref.eval(op[1], created, demand))
                 b = known(ref.eval(op[2], created, demand))
@@ -854,6 +886,58 @@ def pressure_episode(r, rng, label, do, extended=False):
     return True
 
 
+def chain_episode(r, rng, label):
+    """Variables that share one descriptor (same program literal, same DATA item, copies of a program-literal
+    pointer), CHAIN with COMMON or ALL to a copy of the program, then in-place edits (MID$=, LSET, RSET) of single
+    variables and forced collections: every other variable must keep its value, FRE must account for one copy per
+    variable."""
+    do = lambda op: (None if r.failed else r.step(op, label))
+    if r.ideal_free() < 2500:
+        return
+    mode = rng.choice(['all', 'common'])
+    pool_s = list(COMMON_SCALARS) if mode == 'common' else [n for n in SCALARS]
+    elems = [('e', b'R$', i) for i in range(4)]
+    if not r.s.get_variable(b'R$()'):
+        do(('dim', b'R$', 3))
+    if mode == 'all' and not r.s.get_variable(b'S$()'):
+        do(('dim', b'S$', 2))
+    if mode == 'all':
+        elems += [('e', b'S$', i) for i in range(3)]
+    cells = [('s', n) for n in pool_s] + elems
+    for _ in range(rng.randrange(2, 6)):
+        x = rng.random()
+        if x < 0.35:
+            do(('gosubs', rng.choice(sorted(SHARE_LINES))))
+        elif x < 0.6:
+            a, b = rng.sample(cells, 2)
+            do(('restore',))
+            do(('read', a))
+            do(('restore',))
+            do(('read', b))
+        elif x < 0.85:
+            line = rng.choice([n for n, _, _ in CODE_LINES][:3])
+            do(('goto', line))
+            src = ('s', r.code_lits[line][0])
+            for d in rng.sample(cells, rng.randrange(1, 3)):
+                if d != src:
+                    do(('let', d, ('var', src)))       # copies the pointer into the program text
+        else:
+            do(('let', rng.choice(cells), ('rep', rng.randrange(1, 30), 120)))
+    do(('chain', mode))
+    r.ctx.count('chain:' + mode)
+    do(('frs',))
+    for _ in range(rng.randrange(2, 6)):
+        d = rng.choice(cells)
+        x = rng.random()
+        if x < 0.4:
+            do(('mid', d, rng.choice([1, 1, 2, 3]), rng.choice([None, 1, 2]), ('lit', rand_bytes(rng, rng.randrange(1, 4)))))
+        elif x < 0.8:
+            do(('lset', d, rng.random() < 0.5, ('lit', rand_bytes(rng, rng.randrange(0, 4)))))
+        else:
+            do(('frs',))
+    do(('frs',))
+
+
 def modelled_session(ctx, n_hist, hist_len, label):
     """histories of modelled statements; compared step by step with the Lean model and with the reference"""
     rng = ctx.rng
@@ -920,7 +1004,19 @@ def compare_model(ctx, r, ops, line, label):
 
 DATA_ITEMS = [b'alpha', b'bravo charlie', b'd', b'', b'echo-foxtrot-golf-hotel-india-juliet-kilo-lima-mike-november',
               b'oscar', b'papa quebec', b'romeo', b'sierra tango uniform', b'victor', b'w', b'xray yankee zulu']
+COMMON_SCALARS = (b'A$', b'B$', b'C$')
+COMMON_ARRAYS = (b'R$',)
+# lines that give several variables the same descriptor (one literal instance in the program text)
+SHARE_LINES = {
+    200: [(('e', b'R$', i), b'shared literal') for i in range(4)],
+    210: [(('s', b'B$'), b'pair literal'), (('s', b'C$'), b'pair literal')],
+    220: [(('s', b'A$'), b'triple'), (('e', b'R$', 1), b'triple'), (('s', b'D$'), b'triple')],
+}
 PROGRAM = [
+    b'5 COMMON A$,B$,C$,R$()',
+    b'200 FOR I%=0 TO 3:R$(I%)="shared literal":NEXT:END',
+    b'210 B$="pair literal":C$=B$:END',
+    b'220 A$="triple":R$(1)=A$:D$=A$:END',
     b'10 DEF FNA$(X$)=X$+"!"+X$',
     b'20 DEF FNB$(X$,Y$)=LEFT$(Y$+X$,40)+MID$(X$,2,5)',
     b'30 END',
@@ -956,6 +1052,9 @@ def extended_session(ctx, n_hist, hist_len, label):
                 if r.data_unsure:
                     r.step(('restore',), label)
                 x = rng.random()
+                if x < 0.012:
+                    chain_episode(r, rng, label)
+                    continue
                 if size is not None and size < m.var_start() + m.stack_size + 2 + 1600 and x > 0.985:
                     pressure_episode(r, rng, label, lambda o: (None if r.failed else r.step(o, label)), True)
                     continue
